@@ -351,3 +351,8 @@ package evaluator
 //@   loop 1 invariant -1 <= rangeindex && rangeindex < len(*a.Elements) && ncalls("(value).String") == rangeindex + 1 && ncalls("Join") == 0 && fresh(elements) && len(elements) == len(*a.Elements) && off(elements) == 0
 //@   loop 1 invariant forall(j, int, 1 <= j && j <= rangeindex + 1 ==> callarg("(value).String", j, 0) == (*a.Elements)[j-1])
 //@   loop 1 invariant forall(i, int, 0 <= i && i <= rangeindex ==> elements[i] == callres("(value).String", i + 1, 0))
+
+// Set overwrites a value cell in place (the only operation that does).
+//@ iface (v value) Set(o value) ()
+//@   trusted
+//@   modifies class evaluator.numVal.V, class evaluator.stringVal.V, class evaluator.stringVal.runeSlice, class evaluator.boolVal.V, class evaluator.anyVal.V, class evaluator.anyVal.T, class evaluator.arrayVal.Elements, class evaluator.mapVal.Pairs, class evaluator.mapVal.Order
